@@ -95,6 +95,8 @@ func tokenOf(args []string) (kind, token string) {
 var defaultScript = simos.Script{LifeMs: 1000, Exit: 0, TermLagMs: 0}
 
 type runCtx struct {
+	sweepSem       *simsync.Sem
+	sweepCancelled *bool
 	sc       *Scenario
 	launches map[string]int
 	runner   *app.ProjectRunner
@@ -204,11 +206,20 @@ func RunScenario(t *testing.T, sc *Scenario, tape []int32) *RunResult {
 	}
 	defer func() { simlog.Cur = nil; simos.W = nil; simsync.HookFn = nil }()
 
-	var obsSem simsync.Sem
+	var obsSem, sweepSem simsync.Sem
+	sweepCancelled := false
+	rc.sweepSem, rc.sweepCancelled = &sweepSem, &sweepCancelled
 	obsStop := false
 	cfg := simsync.Config{
 		Seed: sc.Seed, Tape: tape, Strategy: sc.Strategy, IterMode: sc.IterMode, IterRot: sc.IterRot,
 		MaxSteps: 60000, Horizon: 3 * time.Hour,
+	}
+	if sc.SweepStep > 0 {
+		cfg.OnStep = func(step int, _ *simsync.Task, _ int) {
+			if step == sc.SweepStep {
+				sweepSem.Post()
+			}
+		}
 	}
 	if sc.Observe {
 		cfg.Stable = func() bool {
@@ -278,14 +289,18 @@ func RunScenario(t *testing.T, sc *Scenario, tape []int32) *RunResult {
 		}
 		finished := runDone.WaitTimeout(time.Duration(sc.RunForMs) * time.Millisecond)
 		if !finished && sc.EndShutdown {
-			simlog.Add(simlog.Event{Kind: "api.call", Subj: "main", N: 0, A: "shutdown"})
-			err := runner.ShutDownProject()
-			simlog.Add(simlog.Event{Kind: "api.ret", Subj: "main", N: 0, A: "shutdown", B: errStr(err)})
+			simsync.GoNamed("final-shutdown", func() {
+				simlog.Add(simlog.Event{Kind: "api.call", Subj: "main", N: 0, A: "shutdown()"})
+				err := runner.ShutDownProject()
+				simlog.Add(simlog.Event{Kind: "api.ret", Subj: "main", N: 0, A: "shutdown()", B: errStr(err)})
+			})
 			finished = runDone.WaitTimeout(time.Duration(sc.BoundMs) * time.Millisecond)
 		}
 		if !finished {
 			simlog.Add(simlog.Event{Kind: "run.hang", A: fmt.Sprintf("Run() has not returned %dms after the end of the workload", sc.BoundMs)})
 		}
+		sweepCancelled = true
+		sweepSem.Post()
 		// let the clients finish (bounded)
 		var cdone simsync.Event
 		simsync.GoNamed("clients-wait", func() { clients.Wait(); cdone.Set() })
@@ -346,6 +361,15 @@ func b2i(b bool) int {
 // runClient executes the scripted API operations of one client.
 func (rc *runCtx) runClient(c *Client) {
 	start := simsync.Elapsed()
+	if c.Name == "sweep" {
+		rc.sweepSem.Wait()
+		if *rc.sweepCancelled {
+			return
+		}
+		simsync.Prefer(simsync.CurrentTask())
+		defer simsync.Prefer(nil)
+		start = simsync.Elapsed()
+	}
 	for i := range c.Ops {
 		op := &c.Ops[i]
 		if d := time.Duration(op.AtMs)*time.Millisecond - (simsync.Elapsed() - start); d > 0 {
